@@ -180,6 +180,26 @@ TYPES['104'] = dict(
 pub open spec fn f23e_codes(f: Field23E, allowed: Seq<&'static str>) -> Seq<Seq<char>> {
     one_if(!lits_contain(allowed, f.instruction_code@), "T47"@) + one_if(f.additional_info.is_some() && f.instruction_code@ != "OTHR"@, "D81"@)
 }
+/// C1 (C75): 23E in A = RFDD => 23E in every B; 23E in A present, not RFDD => 23E in no B; 23E absent in A => 23E in every B
+pub open spec fn c1_viol(m: &MT104, t: MT104Transaction) -> bool {
+    if m.field_23e.is_some() { if m.field_23e.unwrap().instruction_code@ == "RFDD"@ { t.field_23e.is_none() } else { t.field_23e.is_some() } } else { t.field_23e.is_none() }
+}
+pub open spec fn c1_fold(m: &MT104, n: int) -> Seq<Seq<char>>
+    decreases n
+{ if n <= 0 { seq![] } else { c1_fold(m, n - 1) + one_if(c1_viol(m, m.transactions@[n - 1]), "C75"@) } }
+pub open spec fn c1_spec(m: &MT104) -> Seq<Seq<char>> { c1_fold(m, m.transactions@.len() as int) }
+/// C12 (C96): RFDD in A => no 21E, 50a (A/K), 52a, 71F, 71G in any B (one error each) and no sequence C; otherwise no 21R in A and sequence C mandatory
+pub open spec fn rfdd_a(m: &MT104) -> bool { m.field_23e.is_some() && m.field_23e.unwrap().instruction_code@ == "RFDD"@ }
+pub open spec fn c12_tx(t: MT104Transaction) -> Seq<Seq<char>> {
+    one_if(t.field_21e.is_some(), "C96"@) + one_if(t.creditor_tx.is_some(), "C96"@) + one_if(t.field_52.is_some(), "C96"@) + one_if(t.field_71f.is_some(), "C96"@) + one_if(t.field_71g.is_some(), "C96"@)
+}
+pub open spec fn c12_fold(v: Seq<MT104Transaction>, n: int) -> Seq<Seq<char>>
+    decreases n
+{ if n <= 0 { seq![] } else { c12_fold(v, n - 1) + c12_tx(v[n - 1]) } }
+pub open spec fn c12_spec(m: &MT104) -> Seq<Seq<char>> {
+    if rfdd_a(m) { c12_fold(m.transactions@, m.transactions@.len() as int) + one_if(m.field_32b.is_some(), "C96"@) }
+    else { one_if(m.field_21r.is_some(), "C96"@) + one_if(m.field_32b.is_none(), "C96"@) }
+}
 pub open spec fn f23e_a_spec(m: &MT104) -> Seq<Seq<char>> { if m.field_23e.is_some() { f23e_codes(m.field_23e.unwrap(), seq!["AUTH", "NAUT", "OTHR", "RFDD", "RTND"]) } else { seq![] } }
 pub open spec fn any_b(m: &MT104, p: spec_fn(MT104Transaction) -> bool) -> bool { exists|i: int| 0 <= i < m.transactions@.len() && p(#[trigger] m.transactions@[i]) }
 pub open spec fn any_cred(m: &MT104) -> bool { exists|i: int| 0 <= i < m.transactions@.len() && (#[trigger] m.transactions@[i]).creditor_tx.is_some() }
@@ -215,6 +235,7 @@ pub open spec fn c4_spec(m: &MT104) -> Seq<Seq<char>> {
     helpers=[
         ('has_sequence_c', 'r == self.field_32b.is_some()'),
         ('has_rtnd_in_seq_a', 'r == rtnd_a(self)'),
+        ('has_rfdd_in_seq_a', 'r == rfdd_a(self)'),
         ('has_creditor_in_seq_a', 'r == self.creditor.is_some()'),
         ('has_creditor_in_all_seq_b', 'r == all_cred(self)'),
         ('has_creditor_in_any_seq_b', 'r == any_cred(self)'),
@@ -236,7 +257,18 @@ pub open spec fn c4_spec(m: &MT104) -> Seq<Seq<char>> {
         ('has_71g_in_seq_c', 'r == self.field_71g.is_some()'),
     ],
     rules=[
-        stub('validate_c1_field_23e_dependencies', 'no oracle written yet'),
+        vec('validate_c1_field_23e_dependencies', 'c1_spec', doc='C1 (C75)', extra='''
+body replace "for (idx, transaction) in self.transactions.iter().enumerate()" => "for transaction in &self.transactions"
+body replace "idx + 1" => "0usize"
+loop 0 iter=it
+  invariant self.field_23e.is_some() && self.field_23e.unwrap().instruction_code@ == "RFDD"@, codes(errors@) == c1_fold(self, it.index@ as int)
+loop 1 iter=it
+  invariant self.field_23e.is_some() && self.field_23e.unwrap().instruction_code@ != "RFDD"@, codes(errors@) == c1_fold(self, it.index@ as int)
+loop 2 iter=it
+  invariant self.field_23e.is_none(), codes(errors@) == c1_fold(self, it.index@ as int)
+hint start
+  broadcast use group_codes;
+'''),
         opt('validate_c2_creditor_field', 'C76', '(m.creditor.is_some() && any_cred(m)) || (m.creditor.is_none() && !all_cred(m))',
             doc='C2 (C76): field 50a (A/K) in sequence A or in every occurrence of sequence B, never in both, never in neither'),
         vec('validate_c3_mutual_exclusivity', 'c3_spec', extra='hint start\n  broadcast use group_codes;'),
@@ -258,7 +290,14 @@ hint start
         stub('validate_c9_field_19', 'floating point sum', ret='opt'),
         stub('validate_c10_field_19_amount', 'no oracle written yet', ret='opt'),
         stub('validate_c11_currency_consistency', 'no oracle written yet'),
-        stub('validate_c12_rfdd_comprehensive', 'no oracle written yet'),
+        vec('validate_c12_rfdd_comprehensive', 'c12_spec', doc='C12 (C96)', extra='''
+body replace "for (idx, transaction) in self.transactions.iter().enumerate()" => "for transaction in &self.transactions"
+body replace "idx + 1" => "0usize"
+loop 0 iter=it
+  invariant has_rfdd == rfdd_a(self), codes(errors@) == c12_fold(self.transactions@, it.index@ as int)
+hint start
+  broadcast use group_codes;
+'''),
         vec('validate_field_23e_seq_a', 'f23e_a_spec', extra='hint start\n  broadcast use group_codes;\nfmtcat *',
             doc='23E in sequence A: T47 unless AUTH, NAUT, OTHR, RFDD, RTND; D81 when additional information is used with a code other than OTHR'),
         each('validate_field_23e_seq_b', 'transactions', 'MT104Transaction',
